@@ -63,13 +63,24 @@ LEVEL_TEXT = ("Level 'other'. PROVED IN COQ (73 obligations incl. 3 non-vacuity 
               "with/without delays, Serial/Biclique/RecurrentSerial, 9 trainers with batch_reduction=sum: batched parts == sum of "
               "per-sample parts; the same components with the batch size reached through the batchsz setters after warm-up at other "
               "sizes; 14 trainer configurations with sum and all hyperparameters given as per-cell overrides, several cells per "
-              "trainer).")
+              "trainer; delayed reads (current_at/spike_at/pos_/neg_current_at) with PER-SAMPLE selectors on all 4 synapse classes "
+              "and on the synapses of the 4 connection classes - off-grid maximum delays, selectors in (delay, span], beyond the "
+              "span, negative, near stored steps within / outside non-zero interpolation tolerances, overbound values present / "
+              "None: sample b of the batched query == the batch-1 query of sample b; the 4 adaptive neuron classes with the "
+              "adaptation update RUNNING under batch_reduction in {default, mean, sum, amax, amin, a custom callable}: per-sample "
+              "spikes/voltages/refracs == batch-1 ones and batched adaptation == that reduction of the B batch-1 adaptations).")
 LEVEL_NOTE = ("Not a proof about the code. Trusted: the other properties' models as readings of the code (their correspondence checks), "
               "the comparison harness (tools/impl/c11_impl.py), float64, tolerance 1e-9 relative for continuous values (vectorised vs "
               "scalar libm paths), spikes compared exactly. Axioms: none for the neuron (frozen) / synapse / connection / layer "
               "obligations (closed under the global context, any number type); the standard-library real-number axioms for the "
-              "adaptation-coupling and trainer obligations. In the differential runs adaptation updates (documented batch reduction) "
-              "are frozen with adapt=False; mean/amax reductions of the trainers are not covered (sum only, as the property says).")
+              "adaptation-coupling and trainer obligations. In the component/layer differential runs adaptation updates (documented "
+              "batch reduction) are frozen with adapt=False / eval(); the coupling itself is checked by a separate relational stream "
+              "(adaptation running, every step restarted from the shared adaptation). The Coq coupling theorem "
+              "(C11/NeuronCoupling.v) is stated for the MEAN only: that the batched adaptation is the CONFIGURED reduction (sum, "
+              "amax, amin, custom callable) of the per-sample ones is a differential check on the code, not a theorem. Likewise "
+              "the per-sample-selector stream is differential evidence (the C04 model theorem covers per-sample selectors, its tie "
+              "to the code is C04's correspondence check). mean/amax reductions of the trainers are not covered (sum only, as the "
+              "property says).")
 EXPLANATION = LEVEL_TEXT
 IMPL = os.path.join(F.VERIF, "tools", "impl", "c11_impl.py")
 
@@ -242,12 +253,67 @@ def gen_cases2(rng, n):
     return cases
 
 
+ADAPTIVE = ["ALIF", "GLIF2", "Izhikevich", "AdEx"]
+NEURON_REDUCTIONS = ["sum", "amax", "mean", "amin", "custom", "none"]
+
+
+def sel_synapse_kw(rng, cls, dt):
+    """synapse options that matter for delayed reads: non-zero interpolation tolerances, overbound values present / absent
+    (None = clamp to the record ends), both interpolation modes"""
+    kw = {"interp_tol": rng.choice([0.0, 1e-3, 1e-2, 1e-3, dt / 16]),
+          "current_overbound": rng.choice([0.0, 0.0, None, 7.5]),
+          "spike_overbound": rng.choice([False, None, True])}
+    kw["interp_mode" if cls.startswith("Delta") else "spike_interp_mode"] = rng.choice(["previous", "previous", "nearest"])
+    return kw
+
+
+def offgrid_delay(rng, dt):
+    """maximum delays that are mostly NOT a multiple of dt (the record then spans more time than the delay)"""
+    return (rng.choice([1, 2, 2, 3, 5, 8]) + rng.choice([0.0, 0.5, 0.5, 0.25, 0.75])) * dt
+
+
+def gen_cases3(rng, n):
+    """third stream: (a) delayed reads with PER-SAMPLE selectors on synapses (all four classes, by index) and on the
+    synapses of connections; (b) adaptive neurons with the adaptation update RUNNING under every batch reduction: the
+    batched adaptation must be that reduction of the batch-1 instances' adaptations"""
+    cases = []
+    for i in range(n):
+        kind = ["synapse_sel", "neuron_adapt", "synapse_sel", "connection", "neuron_adapt"][i % 5]
+        j = i // 5
+        B = rng.choice([2, 2, 3, 4])
+        dt = rng.choice(DTS)
+        seed = rng.randrange(1 << 30)
+        if kind == "synapse_sel":
+            cls = SYNAPSES[(j + (i % 5) // 2) % len(SYNAPSES)]
+            kw = dict(sel_synapse_kw(rng, cls, dt), delay=offgrid_delay(rng, dt))
+            cases.append({"kind": kind, "spec": {"cls": cls, "shape": rng.choice([[3], [2, 2], [4]]), "dt": dt, "kw": kw},
+                          "B": B, "T": rng.randint(6, 12), "seed": seed, "D": rng.choice([0, 0, 1, 2, 3]), "queries": 2,
+                          "p": rng.choice([0.35, 0.5, 0.6])})
+        elif kind == "connection":
+            cls = ["LinearDense", "Conv2D", "LinearDirect", "LinearLateral"][j % 4]
+            cs = conn_spec(rng, cls, dt, offgrid_delay(rng, dt))
+            scls = SYNAPSES[(j // 4) % len(SYNAPSES)]
+            cs["synapse"] = {"cls": scls, "kw": sel_synapse_kw(rng, scls, dt)}
+            cases.append({"kind": kind, "spec": cs, "B": B, "T": rng.randint(5, 9), "seed": seed, "ongrid": rng.random() < 0.3,
+                          "sel": {"D": rng.choice([0, 1, 2]), "queries": 1}})
+        else:
+            ja = 2 * j + (1 if i % 5 == 4 else 0)
+            cls = ADAPTIVE[ja % len(ADAPTIVE)]
+            red = NEURON_REDUCTIONS[(ja // len(ADAPTIVE)) % len(NEURON_REDUCTIONS)]
+            kw = {"refrac_t": rng.choice([0.0, dt, 2 * dt])}
+            cases.append({"kind": kind, "spec": {"cls": cls, "shape": rng.choice([[3], [2, 2]]), "dt": dt, "kw": kw},
+                          "B": B, "T": rng.randint(10, 25), "seed": seed, "scale": rng.choice([60.0, 80.0, 120.0]),
+                          "reduction": red, "via": rng.choice(["train", "adapt"])})
+    return cases
+
+
 def run(ctx):
     rng = random.Random(ctx["seed"])
     n = 200 if ctx["tier"] == "quick" else 2000
     cases = load_corpus() + gen_cases(rng, n)
     # independent generator: the first stream is exactly what it was before the second one existed
     cases += gen_cases2(random.Random(ctx["seed"] * 7919 + 11), 160 if ctx["tier"] == "quick" else 1600)
+    cases += gen_cases3(random.Random(ctx["seed"] * 104729 + 13), 150 if ctx["tier"] == "quick" else 1500)
     res = []
     # shard over a few processes
     import concurrent.futures as cf
@@ -265,7 +331,8 @@ def run(ctx):
             fails.append({"case": c, "detail": {k2: v for k2, v in r.items() if k2 != "trace"},
                           "signature": {"kind": "batch_interaction", "component": c["kind"]}})
     dist = Counter(c["kind"] + ":" + (c.get("trainer") or c["spec"]["cls"]) + ("/resized" if c.get("resize") else "")
-                   + ("/hp=" + c["hp"] if c.get("hp") else "") for c in cases)
+                   + ("/hp=" + c["hp"] if c.get("hp") else "") + ("/per-sample-selectors" if c.get("sel") else "")
+                   + ("/" + c["reduction"] if c.get("reduction") else "") for c in cases)
     active = sum(1 for r in res if r.get("events", 0) > 0)
     return {
         "evaluations": len(cases),
@@ -276,6 +343,12 @@ def run(ctx):
                 "delayed Conv2D, layers via their components) vs fresh batch-1 copies from the cleared state, and trainers "
                 "whose sum reduction and hyperparameters are per-cell register_cell overrides (trainer-level defaults differ; "
                 "1-3 cells per trainer object, optionally ONE trainer object for the batched cells and all their copies); "
+                "third stream: delayed reads with per-sample selectors (trailing-D and plain per-sample shapes; off-grid maximum "
+                "delays, selectors in (delay, span], beyond the span, negative, near-grid within/outside interp tolerances "
+                "{0, 1e-3, 1e-2, dt/16}, overbound values {default, None, 7.5 / True}) on all 4 synapse classes and on connection "
+                "synapses: batched query sample b == batch-1 query; adaptive neurons (ALIF, GLIF2, Izhikevich, AdEx) x "
+                "batch_reduction {sum, amax, mean, amin, custom, default} with the adaptation update running: batched adaptation "
+                "== the reduction of the batch-1 adaptations; "
                 "non-trivial = the run produced spikes / non-zero parts",
         "samples": cases[:2], "component_distribution": dict(dist), "cases_with_activity": active,
         "mismatches": [], "oracle_failures": fails, "traces_validated_against_impl": len(cases) - len(fails),
